@@ -118,14 +118,17 @@ func (t *Term) Key() string {
 		}
 		b.WriteString("]")
 	case "closure":
-		b.WriteString("closure" + t.Name)
 		if len(t.Args) > 0 {
-			b.WriteString("{ret")
+			b.WriteString("closure{ret")
 			for _, a := range t.Args {
 				b.WriteString(" " + a.Key())
 			}
 			b.WriteString("}")
+		} else {
+			b.WriteString("closure" + t.Name)
 		}
+	case "old":
+		b.WriteString("old(" + t.Args[0].Key() + ")")
 	default:
 		b.WriteString(t.Op + ":" + t.Name + "(")
 		for i, a := range t.Args {
@@ -477,6 +480,9 @@ func normAtom(t *Term, nilness func(*Term) int) Atom {
 		case "(time.Time).After":
 			return Atom{Key: "TLt(" + t.Args[1].Key() + ", " + t.Args[0].Key() + ")", Pol: pol}
 		case "(time.Time).IsZero":
+			if t.Args[0] == tZero || (t.Args[0].Op == "struct" && len(t.Args[0].Fields) == 0 && t.Args[0].Name == "time.Time") {
+				return mkc(true)
+			}
 			return Atom{Key: "TZero(" + t.Args[0].Key() + ")", Pol: pol}
 		case "errors.Is":
 			return Atom{Key: "ErrIs(" + t.Args[0].Key() + ", " + t.Args[1].Key() + ")", Pol: pol}
